@@ -107,6 +107,8 @@ func (w *world) monResponse(r addReq, res result) {
 		seen[id] = true
 		if !w.kr.keys[id].verifier.Verify([]byte(text), sigBytes(l)) {
 			ok, why = false, fmt.Sprintf("cosignature of key %d does not verify over the re-encoded (origin,size,root)", id)
+		} else {
+			w.kr.noteCosigned(id, ns.origin, ns.size, ns.root, sigBytes(l))
 		}
 		if ns.noncanon && id == kW1 && w.kr.keys[id].verifier.Verify([]byte(r.note.text), sigBytes(l)) {
 			ok, why = false, "Ed25519 cosignature verifies over the submitted (non re-encoded) text"
@@ -189,6 +191,7 @@ func (w *world) monSub(r subReq, res result) {
 		}
 	}
 	nl := 0
+	ok2, why2 := true, ""
 	for _, l := range strings.SplitAfter(res.raw, "\n") {
 		if l == "" {
 			continue
@@ -203,6 +206,12 @@ func (w *world) monSub(r subReq, res result) {
 			ok, why = false, fmt.Sprintf("subtree signature by key %d", id)
 			continue
 		}
+		// ground truth, independent of what the request presents: did this key ever cosign that tree?
+		if !w.kr.cosigned[id][treeKey(r.origin, fmt.Sprint(r.n), r.root)] {
+			ok2 = false
+			why2 = fmt.Sprintf("key %d signed subtree [%d,%d) hash %x under checkpoint size %d root %x(%s) of %s, a tree this key NEVER cosigned (it cosigned %d checkpoints in this run); presented signature lines: %s; history: %s",
+				id, r.s, r.e, r.sh[:4], r.n, r.root[:4], w.which(r.n, r.root), r.origin, len(w.kr.cosigned[id]), w.presented(r.note.bytes), w.history(r.origin))
+		}
 		if !valid[id] {
 			ok, why = false, fmt.Sprintf("key %d signed although it has no valid cosignature on the presented checkpoint", id)
 		}
@@ -215,6 +224,36 @@ func (w *world) monSub(r subReq, res result) {
 		ok, why = false, "200 without any signature"
 	}
 	mon("mon_subsig", args, ok, why)
+	mon("mon_subcosigned", args, ok2, why2)
+}
+
+// the signature lines of a presented note: key id, verdict of the public verifier, and where the blob comes from
+func (w *world) presented(b []byte) string {
+	text := noteText(b)
+	if len(text) >= len(b) {
+		return "-"
+	}
+	var o []string
+	for _, l := range strings.SplitAfter(string(b[len(text)+1:]), "\n") {
+		name, hash, pok := parseSigLine(l)
+		if !pok {
+			continue
+		}
+		id := w.kr.idOf(name, hash)
+		d := fmt.Sprintf("key %d", id)
+		if id != 0 {
+			if w.kr.keys[id].verifier.Verify([]byte(text), sigBytes(l)) {
+				d += " (verifies over this text)"
+			} else {
+				d += " (does NOT verify over this text)"
+			}
+		}
+		if f, ok := w.kr.madeFor[string(sigBytes(l))]; ok {
+			d += " = the genuine cosignature of " + f + ", copied verbatim"
+		}
+		o = append(o, d)
+	}
+	return strings.Join(o, ", ")
 }
 
 // ---- release monitors: the property's own clause on everything that becomes readable outside the witness ----
